@@ -263,7 +263,9 @@ receiveLoop:
 		otherRecordBuffer = leftRecordBuffer
 	}
 
-	if err := processRecordsUpTo(ctx, minWatermark, true); err != nil {
+	// Both trees are still in use here: the closed side's buffer may hold records above this watermark,
+	// which will look up the records flushed now (and be looked up by them) later on.
+	if err := processRecordsUpTo(ctx, minWatermark, false); err != nil {
 		return err
 	}
 
